@@ -55,8 +55,11 @@ def llc(dsap, ssap, ctrl, payload, two=False):
     return cat(H(h, 1, 2), payload)
 
 
-def snap(oui, typ, payload, ctrl=3):
-    return cat(H(bytes([0xaa, 0xaa, ctrl]) + oui + struct.pack("!H", typ), 1, 2, 3, 6, 7), payload)
+def snap(oui, typ, payload, ctrl=3, dsap=0xaa, ssap=0xaa, two=False):
+    """LLC + SNAP; `two` = two-octet control field (I/S format: bit 0 of the first control octet clear, or low bits 01)"""
+    c = bytes([ctrl & 0xff]) + (bytes([ctrl >> 8]) if two else b"")
+    n = 3 + len(c)
+    return cat(H(bytes([dsap, ssap]) + c + oui + struct.pack("!H", typ), 1, 2, 3, n, n + 1, n + 2, n + 3, n + 4), payload)
 
 
 def arp(op=1, hwtype=1, ptype=0x0800, hwlen=6, plen=4, sha=MAC_A, spa=0x0a000001, tha=b"\0" * 6, tpa=0x0a000002, trail=b""):
@@ -268,6 +271,13 @@ def corpus():
     add("snap-oui", eth(20, snap(b"\x00\x00\x0c", 0x2000, b"cdp-like data")))
     add("snap-vlan", eth(30, snap(b"\0\0\0", 0x8100, vlan(0x9999, b"inner"))))
     add("snap-small-type", eth(16, snap(b"\0\0\0", 0x0100, b"no llc here")))
+    # LLC/SNAP with a TWO-octet control field (9-byte LLC+SNAP header), both SAP spellings (0xAA / 0xAB), zero and non-zero OUI
+    add("snap2-ip-udp", eth(45, snap(b"\0\0\0", 0x0800, ip4(17, udp(7, 9, b"snap")), ctrl=0x0300, two=True)))
+    add("snap2-ab-arp", eth(37, snap(b"\0\0\0", 0x0806, arp(1), ctrl=0x0102, dsap=0xaa, ssap=0xab, two=True)))
+    add("snap2-oui", eth(21, snap(b"\x08\x00\x07", 0x809b, b"appletalk...", ctrl=0x0004, dsap=0xab, ssap=0xab, two=True)))
+    add("snap2-bare", eth(9, snap(b"\0\0\0", 0x9999, b"", ctrl=0x0000, two=True)))
+    add("snap-ab", eth(8, snap(b"\0\0\0", 0x9999, b"", ctrl=3, dsap=0xab, ssap=0xaa)))
+    add("llc-half-snap", eth(12, llc(0x42, 0xaa, 3, b"ssap only")))
     add("ip-raw", eth(0x0800, ip4(253, b"experimental")))
     add("ip-opts", eth(0x0800, ip4(253, b"abc", opts=bytes.fromhex("0101010144040500"))))
     add("ip-frag", eth(0x0800, ip4(17, b"fragment data..", frag=185, flags=1)))
